@@ -120,6 +120,19 @@ Definition ops_C20 : list opdef := [
      op_spec := fun_spec (fun a => match a with
        | [v] => match dec_top v with Some d => VZ (spec_Of d) | None => VBad end
        | _ => VBad end) |};
+  (* corpus rows with a hand-computed size n (from sizeof_test.go): the property accepts only n,
+     so a serializer / decoder mistake on either side shows (SPECFAIL if Go differs, MODELBUG if the model does) *)
+  {| op_name := "size.Of/known";
+     op_run := fun a => match a with
+       | [v; VZ _] => match dec_top v with
+                | Some d => match Of d with Some n => VZ n | None => VPanic end
+                | None => VBad end
+       | _ => VBad end;
+     op_spec := fun a obs => match a with
+       | [v; VZ n] => match dec_top v with
+                      | Some d => val_eqb obs (VZ n) && (spec_Of d =? n)
+                      | None => false end
+       | _ => false end |};
   (* size.Stat(v, depth, maxItem): [] when the first line is "<nil>", [n] when it is "<type>: n" *)
   {| op_name := "size.Stat";
      op_run := fun a => match a with
